@@ -160,6 +160,73 @@ func runC11(c *mon.Ctx) {
 			})
 		}
 	}
+	// (A2) version-1 algorithm, a kick on one branch against renames on the other, with the pre-fork member events as
+	// auth events (one per state key, the keys in conflict included): the blocks of one type are resolved in map order,
+	// and every one of them must see the same auth events
+	for _, ver := range versions {
+		t := ref.Traits(string(ver))
+		if t == nil || t.StateRes != 1 {
+			continue
+		}
+		for k := 0; k < c.Scale(48, 960); k++ {
+			sr := c.Rand(fmt.Sprintf("v1-ancestors-%s-%d", ver, k))
+			s, trunk := newSim(sr, ver)
+			var members []string
+			for _, u := range s.users[1:] {
+				if s.membership(trunk, u) == "join" {
+					members = append(members, u)
+				}
+			}
+			if len(members) == 0 {
+				c.Count("v1_ancestor_scenarios_skipped_nobody_joined")
+				continue
+			}
+			creator, victim := s.users[0], members[0]
+			for _, u := range members {
+				// somebody the creator can kick
+				if _, ok := s.propose(trunk.clone(), "m.room.member", strp(u), creator, ref.O("membership", ref.S("leave")), false); ok {
+					victim = u
+					break
+				}
+			}
+			b1, b2 := trunk.clone(), trunk.clone()
+			// (the kick lies deeper than the renames of the other branch, so that it is the last candidate tried)
+			s.propose(b1, "m.room.topic", strp(""), creator, ref.O("topic", ref.S("one")), false)
+			s.propose(b1, "m.room.topic", strp(""), creator, ref.O("topic", ref.S("two")), false)
+			s.propose(b1, "m.room.topic", strp(""), creator, ref.O("topic", ref.S("three")), false)
+			if _, ok := s.propose(b1, "m.room.member", strp(victim), creator, ref.O("membership", ref.S("leave")), false); !ok {
+				c.Count("v1_ancestor_scenarios_skipped_kick_refused")
+				continue
+			}
+			s.propose(b1, "m.room.member", strp(creator), creator, ref.O("membership", ref.S("join"), "displayname", ref.S("one")), false)
+			s.propose(b2, "m.room.member", strp(creator), creator, ref.O("membership", ref.S("join"), "displayname", ref.S("two")), false)
+			s.propose(b2, "m.room.member", strp(victim), victim, ref.O("membership", ref.S("join"), "displayname", ref.S("renamed")), false)
+			sets := [][]gmsl.PDU{b1.list(), b2.list()}
+			var auth []gmsl.PDU
+			for _, key := range []stKey{{"m.room.create", ""}, {"m.room.power_levels", ""}, {"m.room.join_rules", ""}, {"m.room.member", creator}, {"m.room.member", victim}} {
+				if p := trunk.state[key]; p != nil {
+					auth = append(auth, p)
+				}
+			}
+			c.Case("v1-ancestor-auth-events:"+string(ver), map[string]any{"version": ver, "kicked": victim}, func() {
+				c.Nontrivial(fmt.Sprintf("v1anc|%s|%d", ver, k))
+				seen := map[string]int{}
+				for i := 0; i < 120; i++ {
+					res, err := gmsl.ResolveConflictsNew(ver, sets, auth, userIDForSender, noRej)
+					if err != nil {
+						c.Failf("stateres:error", "%v", err)
+						return
+					}
+					seen[resultKey(res)]++
+					c.Count("resolutions")
+				}
+				c.Count("v1_repeated_resolutions_with_ancestor_auth_events")
+				if len(seen) > 1 {
+					c.Failf("order-dependence:alg1:run-to-run:ancestor-auth-events", "v%s: 120 identical calls of ResolveConflictsNew (a kick against renames, pre-fork member events as auth events) return %d different states: %v", ver, len(seen), seen)
+				}
+			})
+		}
+	}
 	// (B) per-shard scenarios: permutations, repeats, deprecated entry points, orderings
 	r := c.Rand("scenarios")
 	n := c.Scale(1200, 48000) / len(versions)
@@ -178,6 +245,35 @@ func runC11(c *mon.Ctx) {
 			authList := sc.authAll
 			if t.StateRes == 1 {
 				authList, _ = v1AuthState(sc.stateSets)
+				if sr.Chance(0.5) {
+					// still one auth event per state key, but also for the keys in conflict: the event the room had for that
+					// key before the fork (it is among the auth events of the conflicting ones). The result is one state.
+					have := map[stKey]bool{}
+					cand := map[string]bool{}
+					for _, p := range authList {
+						have[stKey{p.Type(), *p.StateKey()}] = true
+					}
+					for _, set := range sc.stateSets {
+						for _, p := range set {
+							cand[p.EventID()] = true
+						}
+					}
+					keys := []stKey{}
+					for k := range sc.trunk.state {
+						keys = append(keys, k)
+					}
+					sort.Slice(keys, func(i, j int) bool { return keys[i].Type+"|"+keys[i].Key < keys[j].Type+"|"+keys[j].Key })
+					for _, k := range keys {
+						p := sc.trunk.state[k]
+						switch k.Type {
+						case "m.room.create", "m.room.power_levels", "m.room.join_rules", "m.room.member", "m.room.third_party_invite":
+							if !have[k] && !cand[p.EventID()] {
+								authList = append(authList, p)
+								have[k] = true
+							}
+						}
+					}
+				}
 			}
 			// the auth difference is part of what v2 resolves, so an auth event is a "supplied event" too
 			for _, p := range authList {
